@@ -384,6 +384,17 @@ def dir2_descs(tier, workers=None):
                   "RepLens = {4, 11, 12, 64, 65, 66, 67, 68, 130, 1000}\nPads <- PadNone\nMaxSegs = 3\nMaxTotal = 4096\n"
                   "Configs <- CfgLz\nCapSels <- CapB")
     r = cl.tlc_gen("MC_CodecCases", consts, what="MC_CodecCases (C10 inputs)", workers=workers)
+    # every literal-run length in front of a match and every match length (the length encodings have periods:
+    # LZ4 15 + 255k, Snappy 60 / 256 / 64), not only the hand-picked boundaries above
+    top = 560 if tier == "quick" else 1400
+    rng = lambda a, b: "{%s}" % ", ".join(map(str, range(a, b + 1)))
+    cases = list(r.cases)
+    for lits, offs, lens in ((rng(1, top), "{8}", "{64}"), ("{20}", "{1, 8}", rng(4, top))):
+        r2 = cl.tlc_gen("MC_CodecCases", "LitLens = %s\nRepOffs = %s\nRepLens = %s\nPads <- PadNone\nMaxSegs = 2\nMaxTotal = %d\n"
+                        "Configs <- CfgLz\nCapSels <- CapB" % (lits, offs, lens, top + 100), what="MC_CodecCases (C10 sweeps)", workers=workers)
+        cases += r2.cases
+        r.distinct = (r.distinct or 0) + (r2.distinct or 0)
+    r.cases = cases
     return r.cases, r
 
 
